@@ -858,7 +858,11 @@ rf64_command (SF_PRIVATE *psf, int command, void * UNUSED (data), int datasize)
 
 static int
 rf64_set_chunk (SF_PRIVATE *psf, const SF_CHUNK_INFO * chunk_info)
-{	return psf_save_write_chunk (&psf->wchunks, chunk_info) ;
+{	/* The header parser gives up at a marker that is not four printable characters. */
+	if (! psf_chunk_id_is_printable (chunk_info))
+		return SFE_BAD_CHUNK_MARKER ;
+
+	return psf_save_write_chunk (&psf->wchunks, chunk_info) ;
 } /* rf64_set_chunk */
 
 static SF_CHUNK_ITERATOR *
